@@ -764,9 +764,18 @@ class ExpectationPropagation:
         # Normalise posteriors so that empirical mutation rate is constant
         likelihoods = self.edge_likelihoods if rescale_segsites \
             else self.sizebiased_likelihoods  # fmt: skip
+        # `mutation_phase` is the probability of the branch each singleton has been
+        # placed on, whereas `reallocate_unphased` wants that of the block's first branch
+        unphased = self.mutation_blocks != tskit.NULL
+        first_edge = self.block_edges[self.mutation_blocks[unphased], 0]
+        switched = self.mutation_edges[unphased] != first_edge
+        block_phase = self.mutation_phase.copy()
+        block_phase[unphased] = np.where(
+            switched, 1 - self.mutation_phase[unphased], self.mutation_phase[unphased]
+        )
         reallocate_unphased(  # correct mutation counts for unphased singletons
             likelihoods,
-            self.mutation_phase,
+            block_phase,
             self.mutation_blocks,
             self.block_edges,
         )
